@@ -89,6 +89,7 @@ type fragment struct {
 	Inconclusive  []string         `json:"inconclusive"`
 	WallS         float64          `json:"wall_s"`
 	Finished      bool             `json:"finished"`
+	Panicked      string           `json:"panicked"`
 }
 
 var verifRoot string
@@ -332,6 +333,7 @@ type unitResult struct {
 	lastCase   string
 	wall       float64
 	skipped    bool
+	panickedWithFrag bool
 }
 
 func runCheck(id string, spec checkSpec, tier string, seed uint64, keep bool, onlyCase int, out *os.File) int {
@@ -427,6 +429,12 @@ func runCheck(id string, spec checkSpec, tier string, seed uint64, keep bool, on
 			var fr fragment
 			if json.Unmarshal(fb, &fr) == nil && fr.Finished {
 				res.frag = &fr
+				if fr.Panicked != "" {
+					// the test function itself panicked; attribute from the stack
+					res.log = "\n" + fr.Panicked
+					classifyCrash(res)
+					res.panickedWithFrag = true
+				}
 			}
 		}
 		if cl, err := os.ReadFile(filepath.Join(outDir, id+"."+u.Name+".cases.log")); err == nil {
@@ -646,6 +654,15 @@ func decide(id string, spec checkSpec, tier string, seed uint64, results []*unit
 				inconcl = append(inconcl, "unit="+u+": "+s)
 			}
 			counters[u+".wall_s"] = int64(r.wall)
+			if r.panickedWithFrag {
+				if r.crashSig != "" {
+					viols = append(viols, violation{Sig: r.crashSig, Case: -1, CaseDesc: r.lastCase, Unit: u, Witness: r.crashInfo})
+				} else {
+					inconcl = append(inconcl, fmt.Sprintf("harness-crash unit=%s (last %s): %s", u, r.lastCase, firstLines(r.crashInfo, 14)))
+				}
+			} else if r.exitErr != nil && fr.NumViolations == 0 && len(r.races) == 0 {
+				inconcl = append(inconcl, fmt.Sprintf("unit-exit-nonzero unit=%s %v: %s", u, r.exitErr, lastLines(r.log, 10)))
+			}
 		}
 		nAttr := 0
 		for _, rb := range r.races {
